@@ -46,7 +46,7 @@ def jobs(tier):
                          shrink=({"i": (0, 1), "j": (0, 1)} if (q and t in ("t_macro_twice", "t_shadow_reg", "t_macro_single")) else None),
                          note=f"{t}: fill_in_map after fill_in_let (and after expand_macros); oracle: meaning unchanged, no alias referenced any more, "
                               "get_used_qubit_indices == reference set"))
-    for t in (["t_alias_macro", "t_chain", "t_slice_let"] if q else WITH_MAPS):
+    for t in (["t_alias_macro", "t_chain", "t_slice_let", "t_macro_twice"] if q else WITH_MAPS):
         for mask in (0, 1):
             ep = [("o0", "int")] if mask else []
             pre = ["0 <= o0 <= 2"] if mask else []
